@@ -1,20 +1,24 @@
 (* C16 — psd_safe_cholesky perturbs minimally, per batch member, or fails loudly.
    Proof obligations (statements only; proofs are in ProofsLoop.v / ProofsMain.v / ProofsKernel.v /
-   ProofsClosed.v).  Everything is about the transcription coq/C16/Model.v of
+   ProofsSpec.v / ProofsClosed.v).  Everything is about the transcription coq/C16/Model.v of
    linear_operator/utils/cholesky.py; `psc … A upper jitter max_tries` is the call
    `psd_safe_cholesky(A, upper, jitter=…, max_tries=…)` on the flattened batch `A : list matrix`
    and returns (outcome, contents of A after the call).
 
    Quantification: every theorem holds for ALL batch sizes (any list of members, the empty batch
    included), ALL matrix sizes, ALL max_tries (incl. <= 0, given explicitly or by settings), ALL
-   jitter values and ALL settings states.  Theorems in `Section AnyArithmetic` hold for every
-   arithmetic (binary64 included) and every factorisation primitive; those in `Section
-   ExactArithmetic` need the ring identities `ExactArith` (exact arithmetic, no rounding) and
-   are instantiated without any hypothesis for the Cholesky–Banachiewicz kernel over an arbitrary
-   real closed field at the end of the file. *)
+   jitter values and ALL settings states.
+   - Section AnyArithmetic: every arithmetic (binary64 included), every factorisation primitive.
+   - Section ExactArithmetic: arithmetic with the ring identities `ExactArith` (no rounding), every
+     (deterministic, per-member) factorisation primitive `chol_ex`.
+   - Section ExactKernel: `chol_ex` := the Cholesky–Banachiewicz kernel of Model.v (the instance the
+     correspondence shards execute), arithmetic with the field identities `ExactField`.
+   - Section RealClosedField: the same with every hypothesis discharged, for every real closed field
+     (MathComp `rcfType`; `realalg` is a constructed instance, so the hypotheses are satisfiable).
+   Examples at the end instantiate the hypotheses on concrete inputs (arithmetic on Z). *)
 From Coq Require Import List Bool Arith ZArith Lia.
 Import ListNotations.
-Require Import C16.Model C16.ProofsLoop C16.ProofsMain.
+Require Import C16.Model C16.ProofsLoop C16.ProofsMain C16.ProofsKernel C16.ProofsSpec C16.ProofsClosed.
 
 Section AnyArithmetic.
 Variable F : Type.
@@ -164,3 +168,168 @@ Theorem C16_factor (Spec : matrix F -> matrix F -> Prop) :
 Proof. intros H st d32 dt n A jitter max_tries L w A'. exact (psc_factor F ar chol_ex EA Spec H st d32 dt n A jitter max_tries L w A'). Qed.
 
 End ExactArithmetic.
+
+Section ExactKernel.
+Variable F : Type.
+Variable ar : Arith F.
+Hypothesis EF : ExactField F ar.
+Hypothesis Hround : forall x, around32 ar x = x.
+
+(* cholesky_ex on one member, modelled by the kernel: info = 0  =>  the returned L is n x n, lower
+   triangular with a positive diagonal, and (L L^T)_ij = M_ij for j <= i (guard: M is n x n) *)
+Theorem C16_kernel_sound n (M : matrix F) :
+  wf F n M -> snd (chol_kernel ar M) = 0 -> chol_spec F ar n M (fst (chol_kernel ar M)).
+Proof. exact (chol_kernel_sound F ar EF n M). Qed.
+
+(* … and L L^T = M everywhere when M is symmetric *)
+Theorem C16_kernel_sound_sym n (M L : matrix F) :
+  chol_spec F ar n M L -> sym F ar n M ->
+  forall i j, i < n -> j < n -> dot F ar (nth i L []) (nth j L []) = ent F ar M i j.
+Proof. exact (chol_spec_sym F ar EF n M L). Qed.
+
+(* completeness and uniqueness: if (the lower triangle of) M is G G^T for a lower-triangular G with
+   positive diagonal, the kernel reports success and returns exactly G *)
+Theorem C16_kernel_complete n (G : list (list F)) (M : matrix F) :
+  length G = n -> rowsOK F ar G -> wf F n M ->
+  (forall i j, j <= i -> i < n -> ent F ar M i j = dot F ar (nth i G []) (nth j G [])) ->
+  chol_kernel ar M = (pad ar n G, 0).
+Proof. exact (chol_kernel_complete F ar EF n G M). Qed.
+
+(* jitter keeps the matrix square and symmetric, and changes exactly the diagonal *)
+Theorem C16_jitter_entries n (M : matrix F) d i j : wf F n M -> i < n -> j < n ->
+  ent F ar (add_diag ar M d) i j = if Nat.eqb i j then aadd ar (ent F ar M i j) d else ent F ar M i j.
+Proof. exact (ent_add_diag F ar n M d i j). Qed.
+
+(* THE PROPERTY, positive-definite half: every member has a Cholesky factor  =>  exactly those factors are
+   returned (transposed for upper=True), no warning, nothing added, A unchanged *)
+Theorem C16_exact_factor_when_pd st d32 dt n A Gs upper jitter max_tries :
+  Forall2 (fun M G => wf F n M /\ has_factor F ar n M G) A Gs ->
+  psc ar (chol_kernel ar) st d32 dt n A upper jitter max_tries
+  = (Ok (orient F ar n upper (map (pad ar n) Gs)) [], A).
+Proof. exact (psc_kernel_pd_exact F ar EF st d32 dt n A Gs upper jitter max_tries). Qed.
+
+(* THE PROPERTY, jitter half: on a normal return every member b carries either nothing (then L_b is a
+   Cholesky factor of A_b) or exactly jitter*10^k_b with k_b <= m minimal — A_b and A_b + jitter*10^k' I,
+   k' < k_b, have NO Cholesky factor — and L_b is a Cholesky factor of exactly A_b + jitter*10^k_b I;
+   the warnings are jitter*10^0 … jitter*10^m with m < max_tries; A is unchanged *)
+Theorem C16_minimal_jitter_per_member st d32 dt n A jitter max_tries L w A' :
+  Forall (wf F n) A ->
+  trace_on st = false ->
+  psc ar (chol_kernel ar) st d32 dt n A false jitter max_tries = (Ok L w, A') ->
+  let j := eff_jitter F st dt jitter in
+  A' = A /\
+  exists m, (w = [] \/ w = map (J F ar j) (seq 0 (S m)) /\ m < eff_tries F st max_tries) /\
+            Forall2 (returned_factor F ar n j m) A L.
+Proof. exact (psc_kernel_factor F ar EF Hround st d32 dt n A jitter max_tries L w A'). Qed.
+
+(* THE PROPERTY, failure half: a member for which the kernel fails at every rung below max_tries (>= 1)
+   => NotPSDError after exactly max_tries warnings *)
+Theorem C16_not_psd_kernel st d32 dt n A upper jitter max_tries t' M :
+  trace_on st = false -> existsb (has_nan ar) A = false ->
+  let j := eff_jitter F st dt jitter in
+  eff_tries F st max_tries = S t' ->
+  In M A -> okb F (chol_kernel ar) M = false ->
+  (forall k, k < S t' -> okb F (chol_kernel ar) (shift F ar M (J F ar j k)) = false) ->
+  psc ar (chol_kernel ar) st d32 dt n A upper jitter max_tries
+  = (ErrNotPSD (map (J F ar j) (seq 0 (S t'))) (J F ar j t'), A).
+Proof. exact (psc_kernel_not_psd F ar EF Hround st d32 dt n A upper jitter max_tries t' M). Qed.
+
+End ExactKernel.
+
+Section RealClosedField.
+Variable R : rcf.
+Notation T := (carrier R).
+Notation arR := (ArRcf R).
+
+(* the hypotheses of Section ExactKernel hold in every real closed field *)
+Theorem C16_rcf_is_exact : ExactField T arR /\ (forall x : T, around32 arR x = x) /\ ExactArith T arR.
+Proof.
+  exact (conj (ArRcf_field R) (conj (ArRcf_round R) (exact_of_field T arR (ArRcf_field R) (ArRcf_round R)))).
+Qed.
+
+Theorem C16_rcf_exact_factor_when_pd st d32 dt n (A : list (matrix T)) Gs upper jitter max_tries :
+  Forall2 (fun M G => wf T n M /\ has_factor T arR n M G) A Gs ->
+  psc arR (chol_kernel arR) st d32 dt n A upper jitter max_tries
+  = (Ok (orient T arR n upper (map (pad arR n) Gs)) [], A).
+Proof. exact (psc_kernel_pd_exact T arR (ArRcf_field R) st d32 dt n A Gs upper jitter max_tries). Qed.
+
+Theorem C16_rcf_minimal_jitter_per_member st d32 dt n (A : list (matrix T)) jitter max_tries L w A' :
+  Forall (wf T n) A ->
+  trace_on st = false ->
+  psc arR (chol_kernel arR) st d32 dt n A false jitter max_tries = (Ok L w, A') ->
+  let j := eff_jitter T st dt jitter in
+  A' = A /\
+  exists m, (w = [] \/ w = map (J T arR j) (seq 0 (S m)) /\ m < eff_tries T st max_tries) /\
+            Forall2 (returned_factor T arR n j m) A L.
+Proof. exact (psc_kernel_factor T arR (ArRcf_field R) (ArRcf_round R) st d32 dt n A jitter max_tries L w A'). Qed.
+
+Theorem C16_rcf_not_psd st d32 dt n (A : list (matrix T)) upper jitter max_tries t' M :
+  trace_on st = false -> existsb (has_nan arR) A = false ->
+  let j := eff_jitter T st dt jitter in
+  eff_tries T st max_tries = S t' ->
+  In M A -> okb T (chol_kernel arR) M = false ->
+  (forall k, k < S t' -> okb T (chol_kernel arR) (shift T arR M (J T arR j k)) = false) ->
+  psc arR (chol_kernel arR) st d32 dt n A upper jitter max_tries
+  = (ErrNotPSD (map (J T arR j) (seq 0 (S t'))) (J T arR j t'), A).
+Proof. exact (psc_kernel_not_psd T arR (ArRcf_field R) (ArRcf_round R) st d32 dt n A upper jitter max_tries t' M). Qed.
+
+End RealClosedField.
+
+(* a real closed field exists (constructed: the real algebraic numbers), so Section RealClosedField is not vacuous *)
+Example C16_rcf_inhabited : rcf.
+Proof. exact realalg_rcf. Qed.
+
+(* ------------------------------------------------------------------ Examples: the hypotheses are satisfiable.
+   Arithmetic on Z (`ArZ`, satisfies `ExactArith`: ArZ_exact); the factorisation primitive is the kernel run
+   on Z; batches of 1 x 1 and 2 x 2 integer matrices. *)
+Section Examples.
+Let ck := chol_kernel ArZ.
+Let st : settings Z := MkSettings 1%Z 1%Z 1%Z 3%Z false.     (* jitter 1 for every dtype, max_tries 3 *)
+(* members: [[4]] p.d. ; [[0]] singular (needs 10^0) ; [[-5]] needs 10^1 ; [[-200]] hopeless for 3 tries *)
+Let pd := [[4%Z]]. Let sing := [[0%Z]]. Let neg5 := [[(-5)%Z]]. Let hopeless200 := [[(-200)%Z]].
+
+Example ex_hyp_pd_exact : allok Z ck [pd; [[9%Z]]] = true.
+Proof. reflexivity. Qed.
+
+Example ex_hyp_returns :   (* hypotheses of C16_returns for a mixed batch: exit after loop index 1 *)
+  allok Z ck [pd; sing; neg5] = false /\ existsb (has_nan ArZ) [pd; sing; neg5] = false /\
+  first_allok Z ArZ ck true (eff_jitter Z st Float64 None) [pd; sing; neg5] 0 (eff_tries Z st None) = Some 1.
+Proof. repeat split; reflexivity. Qed.
+
+Example ex_mixed_batch :   (* … and what the call returns: pd untouched, sing + 1, neg5 + 10; two warnings 1, 10 *)
+  psc ArZ ck st true Float64 1 [pd; sing; neg5] false None None
+  = (Ok [[[2%Z]]; [[1%Z]]; [[2%Z]]] [1%Z; 10%Z], [pd; sing; neg5]).
+Proof. reflexivity. Qed.
+
+Example ex_member_outcomes :   (* the per-member alternatives of C16_ok_characterisation are all inhabited *)
+  member_outcome Z ArZ ck 1%Z 1 pd [[2%Z]] /\ member_outcome Z ArZ ck 1%Z 1 sing [[1%Z]] /\
+  member_outcome Z ArZ ck 1%Z 1 neg5 [[2%Z]] /\ needs_exactly Z ArZ ck 1%Z 1 neg5.
+Proof.
+  split; [|split; [|split]].
+  - apply MO_untouched; reflexivity.
+  - apply (MO_jittered Z ArZ ck 1%Z 1 sing _ 0); try reflexivity; try lia.
+  - apply (MO_jittered Z ArZ ck 1%Z 1 neg5 _ 1); try reflexivity; try lia.
+    intros k' Hk'. assert (k' = 0) by lia. subst. reflexivity.
+  - repeat split. intros k' Hk'. assert (k' = 0) by lia. subst. reflexivity.
+Qed.
+
+Example ex_hyp_not_psd :   (* hypotheses of C16_not_psd: a hopeless member among good ones, max_tries = 3 *)
+  eff_tries Z st None = 3 /\ In hopeless200 [pd; hopeless200] /\ hopeless Z ArZ ck 1%Z 3 hopeless200.
+Proof.
+  repeat split; [right; left; reflexivity|].
+  intros k Hk. destruct k as [|[|[|k]]]; try reflexivity. lia.
+Qed.
+
+Example ex_not_psd_call :
+  psc ArZ ck st true Float64 1 [pd; hopeless200] false None None = (ErrNotPSD [1%Z; 10%Z; 100%Z] 100%Z, [pd; hopeless200]).
+Proof. reflexivity. Qed.
+
+Example ex_max_tries_zero :   (* the known finding: max_tries = 0 reaches the raise with jitter_new unbound *)
+  psc ArZ ck st true Float64 1 [sing] false None (Some 0%Z) = (ErrUnbound, [sing]).
+Proof. reflexivity. Qed.
+
+Example ex_hyp_kernel_2x2 :   (* wf / has-factor hypotheses on a 2 x 2 matrix with an exact integer factor *)
+  chol_kernel ArZ [[4%Z; 2%Z]; [2%Z; 10%Z]] = ([[2%Z; 0%Z]; [1%Z; 3%Z]], 0) /\ wf Z 2 [[4%Z; 2%Z]; [2%Z; 10%Z]].
+Proof. split; [reflexivity|]. split; [reflexivity|]. intros [|[|i]] Hi; try reflexivity. lia. Qed.
+
+End Examples.
